@@ -70,6 +70,7 @@ type walker struct {
 	m        *method
 	held     []string
 	aliases  map[string]string // local variable -> receiver field it aliases
+	detached map[string]bool   // alias whose field has since been given a fresh value: it is the only holder of the old one
 	out      *[]access
 	edges    *map[string]bool
 	stack    map[string]bool
@@ -201,6 +202,17 @@ func (w *walker) stmt(s ast.Stmt) {
 		for i, l := range x.Lhs {
 			if f, ok := w.lvalueField(l); ok {
 				w.record(f, "W")
+				if _, whole := l.(*ast.SelectorExpr); whole {
+					// recv.F = <something else>: a local that aliased the old value now owns it alone
+					for a, af := range w.aliases {
+						if af == f {
+							if w.detached == nil {
+								w.detached = map[string]bool{}
+							}
+							w.detached[a] = true
+						}
+					}
+				}
 			} else {
 				w.expr(l, true)
 			}
@@ -208,6 +220,7 @@ func (w *walker) stmt(s ast.Stmt) {
 			if id, ok := l.(*ast.Ident); ok && i < len(x.Rhs) {
 				if f, ok := w.recvField(x.Rhs[i]); ok {
 					w.aliases[id.Name] = f
+					delete(w.detached, id.Name)
 				} else if call, ok := x.Rhs[i].(*ast.CallExpr); ok {
 					// x = append(x[:i], ...) on an alias edits the shared backing array in place
 					if fn, ok := call.Fun.(*ast.Ident); ok && fn.Name == "append" && len(call.Args) > 0 {
@@ -250,6 +263,13 @@ func (w *walker) stmt(s ast.Stmt) {
 		}
 	case *ast.RangeStmt:
 		w.expr(x.X, false)
+		if id, ok := x.X.(*ast.Ident); ok {
+			// ranging over a local that still aliases a map field reads that map for the whole loop
+			// (maps, unlike slices, may not be read while another goroutine writes them)
+			if f, ok := w.aliases[id.Name]; ok && !w.detached[id.Name] && strings.HasPrefix(fieldTypes[w.m.typ+"."+f], "map[") {
+				w.record(f, "R")
+			}
+		}
 		w.walkBody(x.Body)
 	case *ast.ReturnStmt:
 		for _, r := range x.Results {
